@@ -29,6 +29,9 @@ def oracle(case, impl):
         ok = (got == 0) == (exp == 0)
     else:
         ok = got == exp
+    if ok and "b" in d and d["b"] != d["o"]:
+        # the zero-copy representation orders the same two terms differently: one of the two answers is not Erlang's
+        return ("violation", "BorrowedTerm::cmp gives %s where OwnedTerm::cmp gives %s (Erlang's order gives %s)" % (d["b"], d["o"], {-1: "lt", 0: "eq", 1: "gt"}[exp]))
     if ok:
         return None
     cls = ordlib.pair_classes(a, b)
